@@ -1060,6 +1060,39 @@ class Gen:
         return rows
 
 
+def store_step(rng, kind, gen, n_rows, probe):
+    """one step in which the STORE is edited behind the enforcer's back (ops 40-42, 1..3 edits: rows gained, rows lost,
+    a whole policy type lost) and then reloaded.  W.p. 0.35 a malformed grouping row (one column missing) is among the
+    edits: the reload is refused while the role links are rebuilt, `probe` follows, the row is deleted again and the
+    reload repeated; w.p. 0.1 the adapter fails part-way instead.  Every step ends with memory = store (provided it
+    started so: auto-save on, no clear without save), so no duplicate row can arise.  `probe` follows every reload,
+    accepted or refused.  Histories containing these steps are outside the Mgmt model (compare_model=False)."""
+    ops = []
+    pts = [0, 1, 1, 1] + ([2, 2] if kind.g2 else []) if kind.g else [0]
+    for _ in range(rng.randint(1, 3)):
+        pt = rng.choice(pts)
+        x = rng.random()
+        if x < 0.55:
+            ops.append((40, pt, gen.rule(pt), rng.randint(0, n_rows + 6)))
+        elif x < 0.85:
+            ops.append((41, pt, gen.rule(pt)))
+        else:
+            ops.append((42, (rng.choice([1, 1, 2]) if kind.g2 else 1) if kind.g else 0))
+    x = rng.random()
+    if x < 0.35 and kind.g:
+        pt = 2 if (kind.g2 and rng.random() < 0.3) else 1
+        full = gen.rule(pt)
+        k = rng.randrange(len(full))
+        bad = full[:k] + full[k + 1:] if len(full) > 2 else full[:1]
+        ops.append((40, pt, bad, rng.randint(0, n_rows + 6)))
+        ops += [(31,)] + list(probe) + [(41, pt, bad), (31,)] + list(probe)
+    elif x < 0.45:
+        ops += [(32, rng.randint(0, n_rows + 3))] + list(probe) + [(31,)] + list(probe)
+    else:
+        ops += [(31,)] + list(probe)
+    return ops
+
+
 # ----------------------------------------------------------------------------- generic history runner
 def run_cases(chk, kind, cases, spec_check=None, label="", impl_kwargs=None, compare_model=True, max_report=3,
               key_fn=None):
